@@ -8,6 +8,8 @@ any number of waiters, event-loop stalls (`fair = false`); the head-of-line boun
 (the unhandled consumer runs when its timer is due — no event-loop stall), which is the fairness hypothesis of DESIGN C07.
 -/
 import GeckoModel.Model.Dispatch
+import GeckoModel.Model.PacketConsumer
+import GeckoModel.Properties.C04
 
 namespace GeckoModel.C07
 open GeckoModel.Dispatch
@@ -263,5 +265,96 @@ example : ((run accEx true init [.put ⟨1, 9⟩, .ustep, .tick 100, .ustep]).ma
 example : ((run accEx true init [.put ⟨1, 2⟩, .ustep, .popBy 2, .tick 100, .ustep]).map (fun s => (s.pops, s.marked))) =
     some ([(.consumer 2, ⟨1, 2⟩)], false) := by decide
 example : (run accEx true init [.put ⟨1, 9⟩, .tick 150]) = none := by decide   -- a stall is not a fair run
+
+/-! ### addressing at the byte level: the long-lived packet consumer (Model/PacketConsumer.lean over C04's regex model) -/
+
+namespace PC
+open GeckoModel.PacketConsumer GeckoModel.Wire GeckoModel.Generated.WireFormats
+
+theorem requeue_handle (sp : Conn) (c : PacketConsumer.PC) (bs ip : Bytes) (port : Nat) :
+    requeue sp (handle c bs ip port) = requeueSpec sp (bs, ip, port) := by
+  unfold requeue handle requeueSpec
+  cases h : extract (sliceNegEnd 7 8 bs) with
+  | none => simp
+  | some t =>
+    obtain ⟨src, dst, data⟩ := t
+    by_cases hh : ip = sp.ip ∧ port = sp.port ∧ src = sp.spaId ∧ dst = sp.clientId
+    · obtain ⟨h1, h2, h3, h4⟩ := hh
+      subst h1; subst h2; subst h3; subst h4; simp
+    · simp only [hh, if_false]
+      have : ¬ (some (ip, port, some src, some dst) = some (sp.ip, sp.port, some sp.spaId, some sp.clientId)) := by
+        intro he
+        apply hh
+        simp only [Option.some.injEq, Prod.mk.injEq] at he
+        exact he
+      simp [this]
+
+/-- **history independence and exactness**: over ANY sequence of datagrams popped by the one long-lived packet consumer
+of a connection, and whatever the consumer held before, what is re-queued is exactly, in order, the DATAS content of the
+datagrams that parse and carry this connection's address and identifier pair - nothing is ever replayed from, or
+decided by, an earlier datagram -/
+theorem consume_eq_spec (sp : Conn) : ∀ (ds : List (Bytes × Bytes × Nat)) (c : PacketConsumer.PC),
+    (consume sp c ds).1 = ds.filterMap (requeueSpec sp) := by
+  intro ds
+  induction ds with
+  | nil => intro c; rfl
+  | cons d rest ih =>
+    intro c
+    obtain ⟨bs, ip, port⟩ := d
+    simp only [consume, List.filterMap_cons]
+    rw [requeue_handle]
+    cases requeueSpec sp (bs, ip, port) with
+    | none => simpa using ih _
+    | some x => simp [ih]
+
+/-- a datagram whose inner parts do not parse has no effect -/
+theorem unparsable_no_effect (sp : Conn) (bs ip : Bytes) (port : Nat) (h : extract (sliceNegEnd 7 8 bs) = none) :
+    requeueSpec sp (bs, ip, port) = none := by
+  simp [requeueSpec, h]
+
+/-- **a well-formed frame whose identifier pair (or sender address) is not this connection's has no effect**, whatever
+its payload -/
+theorem misaddressed_frame_no_effect (sp : Conn) (src dst payload ip : Bytes) (port : Nat) (hs : 60 ∉ src) (hd : 60 ∉ dst)
+    (h : ip ≠ sp.ip ∨ port ≠ sp.port ∨ src ≠ sp.spaId ∨ dst ≠ sp.clientId) :
+    requeueSpec sp (frame dst src payload, ip, port) = none := by
+  have hr := C04.frame_roundtrip src dst payload hs hd
+  unfold decodePacket at hr
+  unfold requeueSpec
+  cases he : extract (sliceNegEnd 7 8 (frame dst src payload)) with
+  | none => simp
+  | some t =>
+    obtain ⟨a, b, c⟩ := t
+    rw [he] at hr
+    simp only [Except.ok.injEq, Decoded.packet.injEq, Option.some.injEq] at hr
+    obtain ⟨h1, h2, _⟩ := hr
+    subst h1; subst h2
+    rcases h with h | h | h | h <;> simp [h]
+
+/-- a frame from this spa to this client is re-queued with exactly its payload, for ARBITRARY payload bytes -/
+theorem addressed_frame_requeued (sp : Conn) (payload : Bytes) (hs : 60 ∉ sp.spaId) (hd : 60 ∉ sp.clientId) :
+    requeueSpec sp (frame sp.clientId sp.spaId payload, sp.ip, sp.port) = some (some payload) := by
+  have hr := C04.frame_roundtrip sp.spaId sp.clientId payload hs hd
+  unfold decodePacket at hr
+  unfold requeueSpec
+  cases he : extract (sliceNegEnd 7 8 (frame sp.clientId sp.spaId payload)) with
+  | none => rw [he] at hr; simp at hr
+  | some t =>
+    obtain ⟨a, b, c⟩ := t
+    rw [he] at hr
+    simp only [Except.ok.injEq, Decoded.packet.injEq, Option.some.injEq] at hr
+    obtain ⟨h1, h2, h3⟩ := hr
+    subst h1; subst h2; subst h3
+    simp
+
+/-- non-vacuity: genuine frame, then a frame with unparsable inner parts, then a foreign frame, then a genuine one:
+two re-queues, in order, nothing replayed -/
+example :
+    let sp : Conn := ⟨[49], 10022, [83, 80, 65], [73, 79, 83]⟩
+    (consume sp {} [(frame [73, 79, 83] [83, 80, 65] [1, 2], [49], 10022),
+                    (PACKET_OPEN ++ [120, 120] ++ PACKET_CLOSE, [49], 10022),
+                    (frame [73, 79, 83] [88] [9], [49], 10022),
+                    (frame [73, 79, 83] [83, 80, 65] [3], [49], 10022)]).1 = [some [1, 2], some [3]] := by decide +kernel
+
+end PC
 
 end GeckoModel.C07
